@@ -686,7 +686,7 @@ impl Monitor for C18 {
          store, strobe, marker asm lines and marker-bracketed csleep statements at a rate of 2 in 5 statements, interleaved with ordinary \
          assignments to and from the same operands, inside loops, branches, switch arms and inlined functions) run on the emulator with the \
          hardware addresses watched; the ordered list of reads, writes and executed markers must equal the reference interpreter's list, and every \
-         bracketed csleep must take n cycles, at -O0 and -O1 (-O2/-O3 on a fifth). (c) final state against the reference. non-trivial = at least \
+         bracketed csleep must take n cycles, at -O0 and -O1 (-O2/-O3 on a fifth). (c) final state against the reference. (d) through the hook steux_cc6502_verif: executions of the instructions the compiler marks protected are counted and must equal the explicit load / store / strobe (+ csleep(3)) statements the reference executed. (e) with --insert-code the code under the source line of an explicit statement must contain its instruction. non-trivial = at least \
          one explicit access or marker was executed"
             .into()
     }
